@@ -411,7 +411,9 @@ def indicator_caps(prog: Program, rep, RID: str):
             atoms = U.atoms()
             key = "AbstractWalkModelDiGraph._encode_subset_constraints:x<=U*z"
             loc = f"{f.module.relpath}:{e['_line']}"
-            if len(atoms) == 1 and list(atoms)[0].startswith("self.edge_upper_bounds[") and U.coeff((list(atoms)[0],)) >= 1 and "self.edge_upper_bounds[" in ub:
+            # (float() around the bound is value-preserving: the declaration converts the same way)
+            if len(atoms) == 1 and list(atoms)[0].startswith(("self.edge_upper_bounds[", "float(self.edge_upper_bounds[")) and U.coeff((list(atoms)[0],)) >= 1 and \
+                    "self.edge_upper_bounds[" in ub:
                 rep.ok(RID, key, "U_e is the declared upper bound of the edge variable", loc, sample={"row": nf.key()})
             else:
                 rep.violation(RID, key, f"indicator row uses U = `{U!r}` but edge variables are declared up to `{ub[:70]}`: multiplicities above U are cut off", loc)
